@@ -286,7 +286,22 @@ def run(prog, rep):
     ff = abci.methods.get('import_graph_from_file')
     rep.instance('R3', f'ABCGraphImporter.import_graph_from_file delegates to import_graph_from_string')
     dc = [c for c in walk_no_nested(ff) if isinstance(c, ast.Call) and call_name(c) == 'import_graph_from_string']
-    if not dc or ast.unparse(kwarg(dc[0], 'graph_id')) != 'graph_id' or ast.unparse(kwarg(dc[0], 'graph_string')) != 'graph_string':
+    def _text_of_file(e):
+        # the text handed on is what was read from the file the caller named
+        if isinstance(e, ast.Name):
+            defs = [a.value for a in ast.walk(ff) if isinstance(a, ast.Assign) and any(isinstance(t, ast.Name) and t.id == e.id for t in a.targets)]
+            return len(defs) == 1 and _text_of_file(defs[0])
+        if isinstance(e, ast.Call) and call_name(e) == 'read' and isinstance(e.func, ast.Attribute) and isinstance(e.func.value, ast.Name):
+            fv = e.func.value.id
+            for w_ in ast.walk(ff):
+                if isinstance(w_, ast.With):
+                    for it in w_.items:
+                        if isinstance(it.optional_vars, ast.Name) and it.optional_vars.id == fv and isinstance(it.context_expr, ast.Call) and \
+                                call_name(it.context_expr) == 'open' and it.context_expr.args and ast.unparse(it.context_expr.args[0]) == 'graph_file':
+                            return True
+        return False
+    if not dc or kwarg(dc[0], 'graph_id') is None or ast.unparse(kwarg(dc[0], 'graph_id')) != 'graph_id' or \
+            kwarg(dc[0], 'graph_string') is None or not _text_of_file(kwarg(dc[0], 'graph_string')):
         rep.violation('R3', loc(abci.module, ff), 'ABCGraphImporter.import_graph_from_file', 'delegation', 'the file entry point must hand text and id to import_graph_from_string')
     ggi = abci.methods.get('get_graph_id')
     gtxt = ast.unparse(ggi)
